@@ -243,6 +243,20 @@ class World:
         git(self.work, 'checkout', '-q', '--detach')
         return fn
 
+    def user_revert(self, branch, like, author=CONTRIB):
+        """a new commit on top of a remote branch whose TREE is the tree of another branch (a revert by hand): the
+        branch then brings no content beyond `like`"""
+        self._fetch()
+        self.counter += 1
+        tree = git(self.work, 'rev-parse', 'origin/%s^{tree}' % like).strip()
+        parent = git(self.work, 'rev-parse', 'origin/' + branch).strip()
+        env = self._env()
+        env.update(GIT_AUTHOR_NAME=author, GIT_AUTHOR_EMAIL='%s@x' % author, GIT_COMMITTER_NAME=author,
+                   GIT_COMMITTER_EMAIL='%s@x' % author)
+        sha = git(self.work, 'commit-tree', tree, '-p', parent, '-m', 'back to %s %d' % (like, self.counter),
+                  env=env).strip()
+        git(self.work, 'push', '-q', 'origin', '%s:refs/heads/%s' % (sha, branch))
+
     def user_amend(self, branch):
         self._fetch()
         git(self.work, 'checkout', '-q', '-B', 'tmpwork', 'origin/' + branch)
